@@ -1,4 +1,4 @@
-CONSTANTS Reqs = {1,2} Notifs = {1,2} MaxRetries = 2 MaxTicks = 2 SendMayFail = FALSE SendMayBlock = FALSE Fix24 = TRUE Fix25 = TRUE SimDepth = 0
+CONSTANTS Reqs = {1,2} Notifs = {1,2} MaxRetries = 2 MaxTicks = 2 SendMayFail = FALSE SendMayBlock = FALSE Fix24 = TRUE Fix25 = TRUE SimDepth = 0 MayClose = TRUE
 INIT Init
 NEXT Next
 VIEW View
